@@ -41,14 +41,13 @@ FltBound(n) == 2 * n + 4
 \* on one period is carried into the later ones with a geometric factor <= 1/(1 - 0.75) = 4; a factor 2 of margin (R3)
 CombInPlaceFactor == 8
 \* the SSE2 vector search ranks candidates with reciprocal-square-root ESTIMATES: its pulse vector may differ from the
-\* portable one (this is wider than reassociation error and is how the kernel is written).  What is demanded exactly:
-\* K pulses, returned energy = sum of squares.  The match with the input (cosine, in millionths) may be lower than the
-\* portable vector's by at most PvqTol (calibrated: worst observed 3.3e3 over the thorough tier; R3 margin > 2x).
-PvqTol == 10000
-\* float build, decoder PCM at levels that differ in float kernels, streams without loss: measured max |difference| in
-\* 16-bit units (harness) - calibrated: 0 observed (no float kernel that differs between levels is on the decode path
-\* of a loss-free stream); tolerance 4 units.
-PcmTol == 4
+\* portable one (this is wider than reassociation error and is how the kernel is written; on the pinned tree the vectors
+\* differ in about 5 % of the calls the codec makes).  What is demanded exactly: K pulses, returned energy = sum of
+\* squares.  The match with the input (cosine between input and pulse vector, in millionths) may be lower than the portable
+\* vector's by at most PvqTol: both searches are greedy, a different near-tie choice leads to a different local optimum.
+\* Calibrated (R3): worst loss observed 21 591 millionths over 5.2e7 codec-passed and 4.3e5 synthetic calls (every new
+\* worst case is logged); tolerance 100 000 (margin > 4x).  A search that places pulses wrongly loses far more.
+PvqTol == 100000
 
 \* ---- dispatch tables (rows: [tab, kern, fx, impl = <<i0, .., i4>>]) ----------------------------
 RowDiffers(row, a, b) == row.impl[a + 1] # row.impl[b + 1]
@@ -59,22 +58,20 @@ MustBeIdentical(rows, fx, a, b) == fx = 1 \/ IntOnlyBetween(rows, a, b)
 \* ---- the abstract codec ---------------------------------------------------------------------------
 \* What a kernel returns: an integer kernel implementation that is faithful returns the portable result; a float kernel
 \* implementation returns some value of its own (within tolerance of the portable one - a different value as far as
-\* equality of outputs is concerned).  Deviant = implementations of integer kernels that are NOT faithful (the defect the
+\* equality of outputs is concerned).  dv = implementations of integer kernels that are NOT faithful (the defect the
 \* property excludes; empty in the intended design).
-KRes(row, lv, x, Deviant) ==
-  LET im == row.impl[lv + 1] IN
-  IF Class(row.kern, row.fx) = "int" /\ im \notin Deviant THEN <<row.kern, "exact", x>> ELSE <<row.kern, im, x>>
+\* The results of all kernels of a call at level lv are therefore determined by the call and by the SIGNATURE of the
+\* level: which kernels do not return the portable result there, and whose value they return instead.
+\* (Every call may run every kernel: which kernels a call really reaches depends on encoder decisions the property
+\* leaves free - the model over-approximates, R1.)
+NonExact(rows, lv, dv) ==
+  {<<rows[i].kern, rows[i].impl[lv + 1]>> :
+      i \in {j \in 1..Len(rows) : Class(rows[j].kern, rows[j].fx) = "flt" \/ rows[j].impl[lv + 1] \in dv}}
 
-\* every call may run every kernel on data derived from the object's observable state and the call (which kernels a
-\* call really reaches depends on encoder decisions the property leaves free: the model over-approximates, R1)
-KernelResults(rows, lv, x, Deviant) == [i \in 1..Len(rows) |-> KRes(rows[i], lv, x, Deviant)]
-
-\* an encoder/decoder state is the sequence of (call, kernel results) so far; outputs:
-\*   data  - packet bytes / PCM: a function of the state, the call and the kernel results
+\* an encoder/decoder state is the sequence of (call, signature under which its kernels ran) so far; outputs:
+\*   data  - packet bytes / PCM: a function of the state (calls and kernel results)
 \*   ctl   - what entropy DEcoding alone determines (final range, sample count): a function of the calls only
-Step(rows, lv, st, call, Deviant) == Append(st, <<call, KernelResults(rows, lv, <<st, call>>, Deviant)>>)
+Step(sig, st, call) == Append(st, <<call, sig>>)
 DataOut(st) == st
-RECURSIVE CallsOf(_)
-CallsOf(st) == IF st = << >> THEN << >> ELSE Append(CallsOf(SubSeq(st, 1, Len(st) - 1)), st[Len(st)][1])
-CtlOut(st) == CallsOf(st)
+CtlOut(st) == [i \in 1..Len(st) |-> st[i][1]]
 =============================================================================
